@@ -41,7 +41,11 @@ MANIFEST = dict(
          "C11_group_transparent; composed: C11_transparent_sequential_all - for EVERY filter, recursive and non-recursive, "
          "normal and full emitter, over all histories in which every operation is drained (one read of the whole kernel "
          "queue, grouping, emission), from Inotify.__init__ on: the filtered watch queues exactly the accepted part of what "
-         "the unfiltered watch queues; C11_pipeline_tie_filtered / C11_pipeline_transparent_step tie one drained operation "
+         "the unfiltered watch queues (repaired reader, F10: the filtered reader of a recursive watch may forget a moved-out "
+         "directory later than the unfiltered one - the LAG; it is covered by a bisimulation on normal forms, C11_lag_step / "
+         "C11_norm_fwd / C11_norm_bwd / C11_inert, under one filter-independent executable hypothesis on the UNFILTERED run, "
+         "tidy_from: at drained points the reader's tables mention live kernel watches only; non-recursive watches and the "
+         "pinned reader need no such hypothesis); C11_pipeline_tie_filtered / C11_pipeline_transparent_step tie one drained operation "
          "to Pipeline.prun with pc_filter. C11_table_refuted_pinned / C11_item_stream_refuted_pinned record F6. The "
          "unrestricted statement is kept as C11_full (gaps: undrained bursts, the skip-repeats queue, the induction over "
          "whole Pipeline histories) and is checked on the real kernel by the two-watch oracle.",
@@ -66,7 +70,12 @@ ASSUMPTIONS = [
     "filter, both kinds of watch, every history in which each operation is followed by a read of the whole kernel queue and "
     "the emission of every item (hypotheses: root path non-empty and not ending in '/', rename sources have a base name). "
     "Not covered by proof: several operations per read (kernel coalescing differs between masks), pairing across reads "
-    "through the delay queue, the skip-repeats queue; these are covered by the real-kernel oracle only",
+    "through the delay queue. These are covered by the real-kernel oracle and the lock-step only",
+    "repaired reader (F10), recursive watches: the history theorems assume tidy_from - at every drained point of the "
+    "UNFILTERED run the (settled) reader's _path_for_wd/_wd_for_path mention descriptors of live kernel watches only. It "
+    "says nothing about the filter, is executable (tidy_fromb) and is discharged by vm_compute in C11_lag_covered / "
+    "C11_full_drained_lag_nonvacuous; it is a part of C02's cover invariant at synced states (WInv.wi_tight) plus 'no "
+    "stale key in _path_for_wd', which is not derived in Coq for arbitrary histories",
     "end-to-end oracle: operations are issued one at a time with a drain in between (the regime of the proved theorem)",
     "filters are built from the 11 concrete event classes and the 2 base classes of watchdog.events",
 ]
@@ -422,6 +431,8 @@ def lockstep_filtered(ctx, res: Result):
     reader under the reduced mask (Fs.knotify's delivery rule), and the events of every queue_events() call.
     Histories: drained and bursty (the model is the full Pipeline LTS, not only the drained regime)."""
     from harness import pipe
+    # does the checkout under test carry the repair of F10 (directories moved out of a recursive watch are forgotten)?
+    moveout_fixed = "_moved_out_candidate" in (core.REPO / "src" / "watchdog" / "observers" / "inotify_c.py").read_text()
     rng = ctx.rng("lockstep")
     singles, pairs, rand = filter_universe(ctx, 20)
     filters = singles + (pairs + rand if ctx.thorough else pairs[::9] + rand[:4])
@@ -445,7 +456,7 @@ def lockstep_filtered(ctx, res: Result):
             # pipe.Run.model_case with the filter's mask and class filter in place of ("all", "none")
             root = os.fsencode(run.rootp)
             cfg = [recursive, full, pipe.DELAY_UNITS, root, mask_of[(tuple(F), recursive)], True, True, True, [],
-                   [Atom(x) for x in F]]
+                   [Atom(x) for x in F], moveout_fixed]
             ents = [[pth, j + 1, d] for j, (pth, d) in enumerate(run.init_fs)]
             acts = []
             for e in run.log:
